@@ -1231,6 +1231,62 @@ pub fn step_reload<const N: usize, const L: usize>(m: usize, cfg: GenCfg) {
     core::mem::forget(book);
 }
 
+#[path = "serde_tape.rs"]
+pub mod tape;
+
+/// save -> load through the DERIVED `Serialize` / `Deserialize` implementations (skip attributes,
+/// `try_from = "OrderBookState"`, field names) over a token tape instead of JSON text: the loaded
+/// book equals the saved one in every scalar, record, key, trade and in both side indexes
+pub fn step_serde_roundtrip<const N: usize, const L: usize>(m: usize, cfg: GenCfg) {
+    use serde::{Deserialize, Serialize};
+    let p: Plain<N> = gen_plain::<N>(m, cfg);
+    let (book, old) = build_with_log::<N, L>(&p, cfg.ntrades);
+    let mut t = tape::Tape::new();
+    let saved = book.serialize(&mut tape::W(&mut t)).is_ok();
+    vcheck!(saved && !t.overflow, "SNAPSHOT.saving_succeeds");
+    let mut r = tape::R::new(&t);
+    match OrderBook::<L>::deserialize(&mut r) {
+        Ok(b2) => {
+            vcheck!(r.pos == t.n, "SNAPSHOT.whole_snapshot_consumed");
+            vcheck!(b2.t == book.t && b2.tick_size == book.tick_size && b2.trade_vol == book.trade_vol && b2.trading == book.trading, "SNAPSHOT.time_tick_counter_flag_round_trip");
+            let mut same = b2.orders.len() == book.orders.len();
+            let mut i = 0;
+            while i < N {
+                if i < b2.orders.len() && i < book.orders.len() {
+                    same &= order_eq(&b2.orders[i].order, &book.orders[i].order) && key_eq(&b2.orders[i].key, &book.orders[i].key);
+                }
+                i += 1;
+            }
+            vcheck!(same, "SNAPSHOT.order_records_and_queue_keys_round_trip");
+            vcheck!(b2.trades.len() == cfg.ntrades && old_trades_unchanged(&b2, cfg.ntrades, &old), "SNAPSHOT.trade_log_round_trips");
+            vcheck!(sides_same(&b2, &book), "SNAPSHOT.side_indexes_of_the_loaded_book_equal_the_originals");
+            vcheck!(queue_stamps_ok(&b2), "SNAPSHOT.next_queue_time_after_every_resting_key");
+            core::mem::forget(b2);
+        }
+        Err(_) => {
+            vcheck!(false, "SNAPSHOT.loading_a_saved_book_succeeds");
+        }
+    }
+    vcover!(active(&p.e[0]) && !p.trading, "cover.resting_order_saved_while_trading_disabled");
+    vcover!(p.e[0].order.status == Status::New, "cover.unplaced_order_saved");
+    vcover!(p.e[0].order.status == Status::Rejected, "cover.rejected_order_saved");
+    core::mem::forget(book);
+}
+
+/// (scalars equal, order records and keys equal, side indexes equal) of two books
+pub fn books_equal<const N: usize, const L: usize>(x: &OrderBook<L>, y: &OrderBook<L>) -> (bool, bool, bool) {
+    let scal = x.t == y.t && x.tick_size == y.tick_size && x.trade_vol == y.trade_vol && x.trading == y.trading && x.trades.len() == y.trades.len();
+    let mut same = x.orders.len() == y.orders.len();
+    let mut i = 0;
+    while i < N {
+        if i < x.orders.len() && i < y.orders.len() {
+            same &= order_eq(&x.orders[i].order, &y.orders[i].order) && key_eq(&x.orders[i].key, &y.orders[i].key);
+        }
+        i += 1;
+    }
+    (scal, same, sides_same(x, y))
+}
+
 /// the book's next queue time lies after every resting order's (representation invariant)
 pub fn queue_stamps_ok<const L: usize>(b: &OrderBook<L>) -> bool {
     let mut ok = true;
@@ -1629,6 +1685,10 @@ vharnesses! {
     fn c07_reload_m2() { step_reload::<3, 2>(2, LOG1) }
     #[cfg_attr(kani, kani::unwind(5))]
     fn c07_reload_m3() { step_reload::<4, 2>(3, LOG1) }
+
+    #[cfg_attr(kani, kani::unwind(18))]
+    fn c07_serde_roundtrip_m1() { step_serde_roundtrip::<2, 2>(1, LOG1) }
+
 
     // ---- C05: ties (same side, price, timestamp)
     #[cfg_attr(kani, kani::unwind(4))]
